@@ -60,7 +60,9 @@ fn dispatch(req: &Req) -> R<String> {
 
 fn answer(line: &str) -> String {
 	let Some(req) = Req::parse(line) else { return "bad-request".into() };
+	mockutil::WLEFT.with(|w| w.set(0));
 	match panic::catch_unwind(panic::AssertUnwindSafe(|| dispatch(&req))) {
+		Ok(Ok(s)) if s == "panic" && mockutil::WLEFT.with(|w| w.get()) > 0 => format!("panic wleft={}", mockutil::WLEFT.with(|w| w.get())),
 		Ok(Ok(s)) => s,
 		Ok(Err(Bad)) => "bad-request".into(),
 		Err(_) => "panic".into(),
